@@ -374,6 +374,8 @@ def r6_condense_add(ctx):
     defs = astx.single_assignments(f.node)
     rets = [n for n in astx.walk_own(f.node) if isinstance(n, ast.Return)]
     good = defs.get("ballots") == f"self.ballots + {other}.ballots" and any(v == "PreferenceProfile(ballots=ballots)" for v in defs.values()) and len(rets) == 1
+    # (the concatenation may be handed over directly)
+    good = good or (any(v == f"PreferenceProfile(ballots=self.ballots + {other}.ballots)" for v in defs.values()) and len(rets) == 1)
     ctx.check(good, f, f.node, "__add__ builds a profile from the concatenated ballot tuples", str(defs), f"__add__ does {defs}")
     rs = astx.raises_in(f.node)
     ctx.check(len(rs) == 1 and astx.raise_type(rs[0]) == "TypeError", f, f.node, "adding a non-profile raises TypeError", "", "__add__ type check changed")
@@ -392,6 +394,29 @@ def r6_condense_add(ctx):
             if len(t) == 1 and isinstance(t[0].test, ast.Compare) and isinstance(t[0].test.ops[0], ast.NotIn) and isinstance(t[0].body[0], ast.Return) and astx.is_const(t[0].body[0].value, False):
                 pairs.add((astx.u(lp.iter), astx.u(t[0].test.comparators[0])))
         good = pairs == {(f"{a}.ballots", f"{b}.ballots"), (f"{b}.ballots", f"{a}.ballots")}
+    if not good and not loops:
+        # the same two containments as  all(x in B for x in A) and all(x in A for x in B)
+        def resolved(e):
+            if isinstance(e, ast.Name):
+                dv = astx.unique_def(f.node, e.id)
+                return astx.u(dv) if dv is not None else e.id
+            if isinstance(e, ast.Attribute) and isinstance(e.value, ast.Name):
+                dv = astx.unique_def(f.node, e.value.id)
+                return (astx.u(dv) if dv is not None else e.value.id) + "." + e.attr
+            return astx.u(e)
+        rets_ = [n for n in astx.walk_own(f.node) if isinstance(n, ast.Return) and n.value is not None]
+        last = rets_[-1].value if rets_ else None
+        parts = last.values if isinstance(last, ast.BoolOp) and isinstance(last.op, ast.And) else []
+        pairs = set()
+        for p_ in parts:
+            if isinstance(p_, ast.Call) and astx.u(p_.func) == "all" and p_.args and isinstance(p_.args[0], astx.LCOMP) and len(p_.args[0].generators) == 1 and not p_.args[0].generators[0].ifs:
+                g_ = p_.args[0].generators[0]
+                t_ = p_.args[0].elt
+                if isinstance(t_, ast.Compare) and len(t_.ops) == 1 and isinstance(t_.ops[0], ast.In) and astx.u(t_.left) == astx.u(g_.target):
+                    pairs.add((resolved(g_.iter), resolved(t_.comparators[0])))
+        A_, B_ = "self.condense_ballots().ballots", f"{other}.condense_ballots().ballots"
+        # every other return of the method is a type / shortcut test that returns False before the comparison
+        good = len(parts) == 2 and pairs == {(A_, B_), (B_, A_)}
     ctx.check(good, f, f.node, "profiles are equal iff their condensed ballots contain each other", "", "PreferenceProfile.__eq__ is not mutual containment of condensed ballots")
 
 
